@@ -30,6 +30,8 @@ def loc(t: Term) -> Term:
         f, args = t[1], t[2]
         if f[0] == "lib" and f[1] in PATH_CTORS and len(args) == 1:
             return loc(args[0])
+        if f[0] == "lib" and f[1] in PATH_CTORS and not args and not t[3]:
+            return ("const", ".")  # Path() is the empty relative path
         if f == ("builtin", "str") and len(args) == 1:
             return loc(args[0])
         if f[0] == "lib" and f[1] == "os.path.dirname" and len(args) == 1:
